@@ -162,3 +162,57 @@ def sign_distrib(rep, prog, rule="SIGN-DISTRIB", files=("src/fmt/", "src/shared/
             else:
                 rep.ok(rule, key, how="every component (%s) is under the multiplication by the sign" % ", ".join(inside)[:120], loc=loc)
     rep.floor(rule + " expressions", n, floor)
+
+
+def obs_year(rep, prog, rule="OBS-YEAR"):
+    """RFC 2822 obsolete years are recognised by their number of digits, not by their value"""
+    from .guards import guards
+    rep.rule(rule, "RFC 2822 (4.3) defines the obsolete year by syntax: exactly two digits mean 19xx/20xx, exactly three digits mean "
+                   "1900 + n, four digits are the year itself. jiff's own printer writes years below 1000 zero-padded to four digits, "
+                   "so DateTimeParser::parse_year must select the +1900 / +2000 adjustment by the number of digits it consumed: every "
+                   "block that adds 1900 or 2000 is guarded by a switch on the digit count (the term that is also the split position "
+                   "of the input). Selecting by the value alone reads \"0042\" as 2042")
+    f = prog.fns.get("jiff::fmt::rfc2822::DateTimeParser::parse_year")
+    if f is None:
+        rep.anchor_missing("fmt::rfc2822::DateTimeParser::parse_year")
+        return
+    T = Terms(f)
+    cfg = mir.CFG(f)
+    count = None
+    for bi, t in mir.iter_calls(f):
+        if t.get("path", "").endswith("::split_at") and len(t.get("args", [])) == 2:
+            count = T.at_call(bi, t, 1)
+    if count is None:
+        rep.violation(rule, "parse_year", "anchor missing: no split_at(input, digits) found", f.loc())
+        return
+    adds = []
+    for bi, b in enumerate(f.blocks):
+        for si, s in enumerate(b["st"]):
+            if s["s"] == "=" and s["rv"]["k"] == "bin" and s["rv"]["op"] in ("Add", "AddWithOverflow"):
+                for o in (s["rv"]["a"], s["rv"]["b"]):
+                    if o.get("o") == "c" and o.get("v") in (1900, 2000):
+                        adds.append((bi, o["v"], s.get("ln")))
+    if len(adds) < 2:
+        rep.violation(rule, "parse_year", "anchor missing: expected the +1900 and +2000 adjustments, found %s" % [a[1] for a in adds], f.loc())
+        return
+    bad = []
+    count_switches = []
+    for sb, b in enumerate(f.blocks):
+        t = b["term"]
+        if t["t"] == "switch" and sb in cfg.reachable():
+            c = T.operand(t["op"], 0, (sb, "term"))
+            if c == count:
+                count_switches.append((sb, list(t["targets"]) + [t["otherwise"]]))
+    for (bi, v, ln) in adds:
+        # selected by the digit count: a switch on the count dominates the block and at least one of its arms cannot reach it
+        # (several arms may share the block: `2 | 3 => year + 1900`)
+        on_count = any(cfg.dominates(sb, bi) and any(not (tg == bi or cfg.can_reach(tg, bi, avoid=(sb,))) for tg in tgs)
+                       for (sb, tgs) in count_switches)
+        if not on_count:
+            bad.append((v, ln))
+    if bad:
+        rep.violation(rule, "parse_year", "the adjustment(s) %s are not selected by the number of digits consumed (no dominating switch on the "
+                      "digit count): a zero-padded four-digit year below 1000, which jiff's own RFC 2822 printer emits, is shifted "
+                      "into 19xx/20xx" % ", ".join("+%d at line %s" % b_ for b_ in bad), f.loc())
+    else:
+        rep.ok(rule, "parse_year", how="%d adjustments, each under a switch on the digit count" % len(adds), loc=f.loc())
